@@ -92,6 +92,19 @@ impl AddSpecImpl<&V> for &V {
     open spec fn add_spec(self, rhs: &V) -> V { arbitrary() }
 }
 impl core::ops::Add<&V> for &V { type Output = V; #[verifier::external_body] fn add(self, rhs: &V) -> (r: V) ensures r@ == vadd(self@, rhs@) { unimplemented!() } }
+pub open spec fn vneg(a: Seq<real>) -> Seq<real> { Seq::new(a.len(), |i: int| -a[i]) }
+impl NegSpecImpl for V {
+    open spec fn obeys_neg_spec() -> bool { false }
+    open spec fn neg_req(self) -> bool { true }
+    open spec fn neg_spec(self) -> V { arbitrary() }
+}
+impl core::ops::Neg for V { type Output = V; #[verifier::external_body] fn neg(self) -> (r: V) ensures r@ == vneg(self@) { unimplemented!() } }
+impl SubSpecImpl<V> for V {
+    open spec fn obeys_sub_spec() -> bool { false }
+    open spec fn sub_req(self, rhs: V) -> bool { self@.len() == rhs@.len() }
+    open spec fn sub_spec(self, rhs: V) -> V { arbitrary() }
+}
+impl core::ops::Sub<V> for V { type Output = V; #[verifier::external_body] fn sub(self, rhs: V) -> (r: V) ensures r@ == vsub(self@, rhs@) { unimplemented!() } }
 impl V {
     // `&a - &b` (rule R29: this Verus build fails internally on a user Sub<&V> for &V instance, so the operator is spelled as a call)
     #[verifier::external_body]
